@@ -409,6 +409,10 @@ class Connection(protocol.Protocol, policies.TimeoutMixin):
         self._consumer = None
         self._consumer_bytes_expected = None
         self._consumer_deferred = None
+        # the consumer may have paused us (from inside its write(), say) and
+        # can no longer resume us now that we are not its producer: go on
+        # reading, or the records that follow would never arrive
+        self.transport.resumeProducing()
 
     # Helper method to write a known number of bytes to a file. This has no
     # flow control: the filehandle cannot push back. 'progress' is an
